@@ -2,7 +2,7 @@
 //! each takes raw fuzzer bytes, decodes them into structured arguments and runs the property's oracle.
 
 use crate::engine::{Check, Fail, Stats};
-use crate::props::{c06, c12, c13};
+use crate::props::{c06, c07, c12, c13, c17};
 
 /// C06: the input is the mapping bytes; totality + resynchronisation at every line break.
 pub fn c06(data: &[u8]) -> Check {
@@ -91,8 +91,62 @@ pub fn c13(data: &[u8]) -> Check {
     Ok(())
 }
 
+/// C07: byte 0 selects a seed mapping; the rest is the trace text (lossy UTF-8). Oracle: the per-line composition rule,
+/// line conservation, mapper == cache, identity under an unrelated mapping.
+pub fn c07(data: &[u8]) -> Check {
+    if data.is_empty() {
+        return Ok(());
+    }
+    let seed = C12_SEEDS[data[0] as usize % C12_SEEDS.len()].as_bytes();
+    let text = String::from_utf8_lossy(&data[1..]).to_string();
+    let lines: Vec<crate::gen::trace::TextLine> = text.split('\n').map(|l| crate::gen::trace::TextLine::Raw(l.to_string())).collect();
+    let t = crate::gen::trace::TextTrace { lines, eol: if data[0] & 0x80 != 0 { 1 } else { 0 }, final_eol: data[0] & 0x40 != 0 };
+    let m = crate::props::common::mapper(seed, false)?;
+    let buf = crate::props::common::write_cache(seed)?;
+    let cache = crate::props::common::parse_cache(&buf)?;
+    let un = crate::props::common::mapper(b"zz.q.Unrelated -> qq.zz:\n    1:1:void x():1 -> y\n", false)?;
+    let mut st = Stats::new();
+    crate::props::common::no_panic("remap_stacktrace", || {
+        c07::check_text(&m, None, &t, &mut st)?;
+        c07::check_text(&cache, None, &t, &mut st)?;
+        use crate::api::Retracer;
+        let input = t.render();
+        let (a, b) = (m.text(&input).map_err(|e| Fail::new("text-error", e))?, cache.text(&input).map_err(|e| Fail::new("text-error", e))?);
+        if a != b {
+            return Err(Fail::new("text-mapper-vs-cache", format!("mapper and cache disagree on {input:?}: {a:?} vs {b:?}")));
+        }
+        if !input.contains("qq.zz") {
+            let ident: String = input.lines().map(|l| format!("{l}\n")).collect();
+            let out = un.text(&input).map_err(|e| Fail::new("text-error", e))?;
+            if out != ident {
+                return Err(Fail::new("text-identity", format!("with an unrelated mapping the output {out:?} differs from the input lines {ident:?}")));
+            }
+        }
+        Ok(())
+    })
+}
+
+/// C17 from the text side: whatever parses to a trace inside the statement's domain must survive print -> parse ->
+/// print unchanged (the fuzzer explores the parser's image; the domain predicate is the one of the proptest stage).
+pub fn c17(data: &[u8]) -> Check {
+    let text = String::from_utf8_lossy(data).to_string();
+    let mut st = Stats::new();
+    let parsed = crate::engine::guarded(|| proguard::StackTrace::try_parse(text.as_bytes()).map(|t| crate::api::proguard::from_trace(&t))).map_err(|p| Fail::new("parse-panic", p))?;
+    if let Some(t) = parsed {
+        c17::check_trace(&t, &mut st)?;
+        for f in &t.frames {
+            if c17::frame_in_domain(f) {
+                c17::check_frame(f, &mut st)?;
+            }
+        }
+    }
+    Ok(())
+}
+
 pub fn run(id: &str, data: &[u8]) -> Option<Check> {
     Some(match id {
+        "C07" => c07(data),
+        "C17" => c17(data),
         "C06" => c06(data),
         "C12" => c12(data),
         "C13" => c13(data),
